@@ -6,6 +6,7 @@ import Pyunicorn.Lemmas.LineIdx
 import Pyunicorn.Lemmas.NsiIdx
 import Pyunicorn.Lemmas.AccessMi
 import Pyunicorn.Lemmas.NsiCsr
+import Pyunicorn.Lemmas.SymbolRnd64
 import Pyunicorn.Generated.StructC20
 import Pyunicorn.Generated.StructC20Pyx
 import Pyunicorn.Generated.StructC20Py
@@ -254,6 +255,55 @@ theorem symbolRnd_in_range_b64 (rnd : Rat → Rat) (hmono : ∀ x y, x ≤ y →
   symbolRnd_in_range_partial rnd hmono h0 hidem s m v nb hs hv hnb
     (fun r hr0 hr1 hfix =>
       Pyunicorn.B64.b64_mul_lt rnd hnear r (hfix ▸ hrep r) hr0 hr1 nb hnb hnb31)
+
+/-- **round 5g: `symbolRnd_in_range_partial` without `_partial` — both halves, no hypothesis about the
+rounding.**  With the *executable* IEEE-754 binary64 rounding `Rnd64.rnd64` (round to nearest, ties
+to even, of an arbitrary rational; `Model/Rnd64.lean`) after each of the three floating-point
+operations `x - range_min`, `scaling * ·`, `· * n_bins`, for every `scaling ≥ 0`, every sample
+`x ≥ range_min` and every `1 ≤ n_bins < 2^31` (Cython's `int n_bins`) the symbol lies in
+`[0, n_bins)`.  The hypothesis `hlt` of `symbolRnd_in_range_partial` is `rnd64_mul_lt` (a double
+`r < 1` is `≤ 1 - 2^-53`, so `r·n_bins` lies strictly below the midpoint between `n_bins` and its
+predecessor unless it is itself a double: `B64.b64_mul_lt`), and the hypotheses `hmono`, `h0`,
+`hidem`, `hnear`, `hrep` of `symbolRnd_in_range_b64` are theorems about `rnd64`
+(`Rnd64.rnd64_nearest`, `Rnd64.rnd64_isB64`, `B64.nearest_fix`, `Rnd64.nearest_nonneg` — the proofs
+of C17's round 5 for the same definition) or not needed (monotonicity was only used for `0 ≤ rnd x`). -/
+theorem symbolRnd_in_range_binary64 (s m v : Rat) (nb : Int)
+    (hs : 0 ≤ s) (hv : m ≤ v) (hnb : 1 ≤ nb) (hnb31 : nb < 2 ^ 31) :
+    0 ≤ symbolRnd Pyunicorn.Rnd64.rnd64 s m nb v ∧ symbolRnd Pyunicorn.Rnd64.rnd64 s m nb v < nb :=
+  symbolRnd_in_range_rnd64 s m v nb hs hv hnb hnb31
+
+/-- the same for every round-to-nearest rounding onto doubles, whatever its tie rule: the hypotheses
+`hmono`, `h0`, `hidem` of `symbolRnd_in_range_b64` dropped -/
+theorem symbolRnd_in_range_any_nearest (rnd : Rat → Rat) (hnear : Pyunicorn.B64.Nearest rnd)
+    (hrep : ∀ x, Pyunicorn.B64.IsB64 (rnd x)) (s m v : Rat) (nb : Int)
+    (hs : 0 ≤ s) (hv : m ≤ v) (hnb : 1 ≤ nb) (hnb31 : nb < 2 ^ 31) :
+    0 ≤ symbolRnd rnd s m nb v ∧ symbolRnd rnd s m nb v < nb :=
+  symbolRnd_in_range_nearest rnd hnear hrep s m v nb hs hv hnb hnb31
+
+/-- the executable rounding discharges `hlt` of `symbolRnd_in_range_partial` as stated there (so the
+old theorem applies to it too), and it is a nearest rounding onto doubles that fixes 0 and is idempotent -/
+theorem rnd64_discharges_hlt (nb : Int) (hnb : 1 ≤ nb) (hnb31 : nb < 2 ^ 31) :
+    (∀ r, 0 ≤ r → r < 1 → Pyunicorn.Rnd64.rnd64 r = r →
+      Pyunicorn.Rnd64.rnd64 (r * (nb : Rat)) < (nb : Rat)) ∧
+    Pyunicorn.B64.Nearest Pyunicorn.Rnd64.rnd64 ∧ (∀ x, Pyunicorn.B64.IsB64 (Pyunicorn.Rnd64.rnd64 x)) ∧
+    Pyunicorn.Rnd64.rnd64 0 = 0 ∧
+    ∀ x, Pyunicorn.Rnd64.rnd64 (Pyunicorn.Rnd64.rnd64 x) = Pyunicorn.Rnd64.rnd64 x :=
+  ⟨fun r h0 h1 hfix => rnd64_mul_lt r h0 h1 hfix nb hnb hnb31,
+   Pyunicorn.Rnd64.rnd64_nearest, Pyunicorn.Rnd64.rnd64_isB64,
+   Pyunicorn.B64.nearest_zero _ Pyunicorn.Rnd64.rnd64_nearest,
+   Pyunicorn.B64.nearest_idem _ Pyunicorn.Rnd64.rnd64_nearest Pyunicorn.Rnd64.rnd64_isB64⟩
+
+/-- non-vacuity: the hypotheses are satisfiable (scaling 1/3 — not a double —, `n_bins` = 7 and the
+largest `int`), and the executable rounding really rounds: `rnd64 (1/3) ≠ 1/3`, `rnd64 (1/2) = 1/2` -/
+example : (0 ≤ symbolRnd Pyunicorn.Rnd64.rnd64 (1/3) 0 7 (29/10) ∧
+      symbolRnd Pyunicorn.Rnd64.rnd64 (1/3) 0 7 (29/10) < 7) ∧
+    (0 ≤ symbolRnd Pyunicorn.Rnd64.rnd64 1 (-1) (2 ^ 31 - 1) 0 ∧
+      symbolRnd Pyunicorn.Rnd64.rnd64 1 (-1) (2 ^ 31 - 1) 0 < 2 ^ 31 - 1) :=
+  ⟨symbolRnd_in_range_binary64 (1/3) 0 (29/10) 7 (by decide +kernel) (by decide +kernel) (by decide +kernel) (by decide +kernel),
+   symbolRnd_in_range_binary64 1 (-1) 0 (2 ^ 31 - 1) (by decide +kernel) (by decide +kernel) (by decide +kernel) (by decide +kernel)⟩
+example : Pyunicorn.Rnd64.rnd64 (1/2) = 1/2 ∧ Pyunicorn.Rnd64.rnd64 (1/3) ≠ 1/3 ∧
+    symbolRnd Pyunicorn.Rnd64.rnd64 (1/3) 0 7 (29/10) = 6 ∧
+    symbolRnd Pyunicorn.Rnd64.rnd64 1 0 4 1 = 3 := by decide +kernel
 
 /-- **round 3: data with infinities.**  With IEEE semantics for `±inf` and NaN (`XR`): whenever
 `scaling` is not negative (`≥ 0`, `+inf` — the float overflow of `1/(max-min)` — or NaN) and
